@@ -54,6 +54,15 @@ def build_harness():
         log("TOOL-ERROR harness build failed:\n" + "\n".join(errs or p.stdout.splitlines()[-30:]))
         raise ToolError("harness build failed")
     log(f"[build] harness built in {time.time()-t0:.1f}s")
+    # run a private copy of the binary: a later rebuild (another check, a changed /repo) cannot swap it under a running check
+    global HARNESS_BIN
+    bindir = os.path.join(VERIF, "work", "bin")
+    os.makedirs(bindir, exist_ok=True)
+    private = os.path.join(bindir, f"verif-harness.{os.getpid()}")
+    shutil.copy2(HARNESS_BIN, private)
+    HARNESS_BIN = private
+    import atexit
+    atexit.register(lambda: os.path.exists(private) and os.remove(private))
     _built = True
 
 
